@@ -16,7 +16,7 @@ from elementpath.exceptions import ElementPathValueError
 from elementpath.sequences import xlist, XSequence
 from elementpath.helpers import split_function_test
 
-from elementpath.sequence_types import match_sequence_type
+from elementpath.sequence_types import match_sequence_type, is_sequence_type_restriction
 from .functions import XPathFunction
 
 
@@ -160,5 +160,7 @@ class XPathArray(XPathFunction):
         if index_type.endswith(('+', '*')):
             return False
 
-        return match_sequence_type(1, index_type) and \
+        # An array is a function(xs:integer) as V: the parameter type of the
+        # test has to be a subtype of xs:integer (parameters are contravariant).
+        return is_sequence_type_restriction('xs:integer', index_type) and \
             all(match_sequence_type(v, value_type, self.parser) for v in self.items())
